@@ -434,6 +434,15 @@ fn check(case: &Case, ctx: &mut CaseCtx<'_>) -> Result<(), String> {
     Ok(())
 }
 
+fn rss() -> String {
+    std::fs::read_to_string("/proc/self/status")
+        .unwrap_or_default()
+        .lines()
+        .filter(|l| l.starts_with("VmRSS") || l.starts_with("VmHWM"))
+        .collect::<Vec<_>>()
+        .join(" ")
+}
+
 fn main() {
     let args = vcore::parse_args();
     let s = Session::new(
@@ -501,7 +510,17 @@ fn main() {
          large arguments (SET/APPEND/LPUSH/SADD/HSET/ZADD of 64 MiB+), APPEND past 512 MiB, SETRANGE/SETBIT around the 512 MiB limit. Snapshot = type, per-element (length, sampled checksum), PTTL from get_data(). \
          non-trivial = error reply or read-only classification; distinct by (holder, size, command, path)",
     );
+    // give the generated check's arena memory back before the large allocations start
+    unsafe {
+        libc::malloc_trim(0);
+    }
+    if std::env::var("C17_RSS").is_ok() {
+        eprintln!("before big_values: {}", rss());
+    }
     s.run_enumerated("big_values", big::big_cases().into_iter(), big::check_big);
+    if std::env::var("C17_RSS").is_ok() {
+        eprintln!("after big_values: {}", rss());
+    }
 
     s.finish();
 }
